@@ -18,7 +18,7 @@ LEVEL_TEXT = ('Bounded symbolic verification on the real protocol object in Open
               'exactly as the one before it, and afterwards the agent is in session or closed with its reconnect pending.')
 LEVEL_NOTE = ('Bodies are structured and short (<= 6 symbolic octets at session level); deep bodies are C11. Mutation corpora are outside '
               'this technique. Twisted as modelled.')
-LEVEL_ADDED = 'Also: well-framed messages of unknown type; the hostile message arrives 20 s after the last one and a (malformed) UPDATE of legal length must restart the hold timer; UPDATE frames shorter than 23 octets are header errors. The hostile message with a good one behind it in the same TCP segment (differential against separate segments); BGP-LS MP_REACH / MP_UNREACH with hostile NLRI TLV headers.'
+LEVEL_ADDED = 'Also: well-framed messages of unknown type; the hostile message arrives 20 s after the last one and a (malformed) UPDATE of legal length must restart the hold timer; UPDATE frames shorter than 23 octets are header errors. The hostile message with a good one behind it in the same TCP segment (differential against separate segments); BGP-LS MP_REACH / MP_UNREACH with hostile NLRI TLV headers. Obligations in which the close the agent asked for completes and the reconnection must still be scheduled; quick tier: MP_REACH / MP_UNREACH headers for arbitrary address families.'
 TECHNIQUE = 'symbolic execution of BGP.dataReceived with symbolic message bodies between reference messages (CrossHair+z3), containment oracle'
 EXPLANATION = 'C10: symbolic hostile bodies through dataReceived in each session state, containment oracle.'
 BOUNDS = 'body <= 8 octets of which <= 6 symbolic; attribute type codes enumerated (24); states OpenSent/OpenConfirm/Established'
@@ -213,6 +213,13 @@ def obligations(tier, seed):
                     out.append(ob('C10/%s/upd-attr/code=%d/val=%d/ext=%s' % (S.STATE_NAMES[st], code, nval, ext), 'ob_contain',
                                   {'state': st, 'shape': 'upd-attr', 'code': code, 'n': 2 + nval, 'ext': ext},
                                   covers=['delivered'], cap=200 if quick else 600))
+    if quick:
+        # MP_REACH / MP_UNREACH headers for arbitrary (also unknown) address families: found by the thorough tier
+        for code in (14, 15):
+            for nval in (3, 4):
+                out.append(ob('C10/ESTABLISHED/upd-attr/code=%d/val=%d/ext=False' % (code, nval), 'ob_contain',
+                              {'state': S.ESTABLISHED, 'shape': 'upd-attr', 'code': code, 'n': 2 + nval, 'ext': False},
+                              covers=['delivered'], cap=250))
     # the same on a session that negotiated hold time 0 (no timers): a malformed UPDATE must not arm one
     for code in ((1, 2, 14) if quick else ATTR_CODES):
         for nval in (0, 2):
